@@ -808,6 +808,132 @@ def check_simplex(ctx, simplex, systems, label):
             ctx.count("simplex:timeout")
 
 
+# ------------------------------------------------------------------ simplex: correspondence with the Lean model
+def var_id(name):
+    """variable numbering of the model: numeric order = Python's string order of the names"""
+    if name.startswith("$"):
+        return ord(name[1]) - ord("a")
+    return 100 + int(name[1:])
+
+
+def simplex_snapshot(s):
+    return (sorted(var_id(v) for v in s.basic), {var_id(v): Fraction(x) for v, x in s.mapping.items()})
+
+
+def run_simplex_trace(mod, rows, enc, limit=20):
+    """One `Simplex()` object: add_ineqs, then handle_assertion; the state (basic set, mapping) is
+    recorded after add_ineqs and after every check().  Reads internals (basic, mapping, atom,
+    wrong_var): used for the correspondence with the model only."""
+    s = mod.Simplex()
+    s.add_ineqs(*build_ineqs(mod, rows, enc))
+    init = simplex_snapshot(s)
+    atoms = [("le" if isinstance(a, mod.leq_atom) else "ge", var_id(a.var_name), Fraction(a[1])) for a in s.atom]
+    snaps, n = [], [0]
+    orig_check, orig_up, orig_lo = s.check, s.assert_upper, s.assert_lower
+
+    def check():
+        r = orig_check()
+        snaps.append(simplex_snapshot(s))
+        return r
+
+    def up(x, c):
+        n[0] += 1
+        return orig_up(x, c)
+
+    def lo(x, c):
+        n[0] += 1
+        return orig_lo(x, c)
+    s.check, s.assert_upper, s.assert_lower = check, up, lo
+    try:
+        with time_limit(limit):
+            s.handle_assertion()
+        outcome = ("sat",)
+    except Timeout:
+        outcome = ("timeout",)
+    except mod.UNSATException:
+        outcome = ("unsat", var_id(s.wrong_var))
+    except (mod.AssertUpperException, mod.AssertLowerException):
+        outcome = ("conflict", n[0] - 1)
+    return outcome, atoms, init, snaps
+
+
+def parse_simplex_model(line):
+    x = sexp.loads(line)
+    if x == "bad-op":
+        return None
+    oc = x[0]
+    outcome = (oc,) if isinstance(oc, str) else (oc[0], int(oc[1]))
+    atoms = [(k, int(v), Fraction(b)) for k, v, b in x[1]]
+    states = [(sorted(int(b) for b in st[0]), {int(v): Fraction(q) for v, q in st[1]}) for st in x[2:]]
+    return outcome, atoms, states[0], states[1:]
+
+
+SIMPLEX_FUEL = 400
+
+
+def check_simplex_model(ctx, simplex, systems, label):
+    """Correspondence: the real Simplex object against the Lean model of it, step by step (the
+    sequence of assertions of handle_assertion, state compared after every check()); and the
+    per-step oracle: after every check() that answers SAT the current assignment satisfies the
+    constraints asserted so far; an UNSAT / bound conflict at step k means the first k+1 constraints
+    have no rational solution (Z3)."""
+    rng = ctx.rng("simplex-model-enc-" + label)
+    runs, lines = [], []
+    for rows, shape in systems:
+        enc = choose_enc(rng, rows)
+        try:
+            tr = run_simplex_trace(simplex, rows, enc)
+        except Exception as e:  # noqa
+            ctx.count("simplex-model:%s:raise:%s" % (label, type(e).__name__))
+            continue
+        runs.append((rows, enc, tr))
+        qs = []
+        for k, r in enumerate(rows):
+            if enc[k]:
+                qs.append(["ge", [[100 + i, c] for i, c in enumerate(r[:-1]) if c != 0], -r[-1]])
+            else:
+                qs.append(["le", [[100 + i, -c] for i, c in enumerate(r[:-1]) if c != 0], r[-1]])
+        lines.append(sexp.dumps(["simplex", SIMPLEX_FUEL, qs]))
+    out = ctx.lean_driver(EXE, lines) if lines else []
+    ndis = 0
+    for idx, (rows, enc, (outcome, atoms, init, snaps)) in enumerate(runs):
+        nv = len(rows[0]) - 1
+        key = rows_key(rows) + "/" + "".join("g" if e else "l" for e in enc)
+        ctx.case(("simplex-model", key), nontrivial=len(snaps) >= 2 and len(set(tuple(b) for b, _ in snaps)) >= 2)
+        ctx.count("simplex-model:%s:%s" % (label, outcome[0]))
+        npiv = sum(1 for a, b in zip([init] + snaps, snaps) if a[0] != b[0])
+        ctx.count("simplex-model:steps-with-pivot", npiv)
+        rp = {"kind": "simplex", "rows": rows, "enc": enc, "result": repr(outcome)}
+        # ---- per-step oracle on the implementation
+        if outcome[0] != "timeout":
+            for k, (_, mp) in enumerate(snaps):
+                if k == len(snaps) - 1 and outcome[0] == "unsat":
+                    break
+                xs = [mp.get(100 + i, Fraction(0)) for i in range(nv)]
+                viol = [r for r in rows[:k + 1] if sum(c * x for c, x in zip(r[:-1], xs)) + r[-1] < 0]
+                if viol:
+                    report(ctx, "simplex:bad-intermediate-assignment", key, "Simplex on %s (encoding %s): after asserting constraint %d and check() = SAT "
+                           "the assignment %s violates the asserted row %s" % (rows, key.split("/")[1], k, {i: str(x) for i, x in enumerate(xs)}, viol[0]), rp)
+                    break
+            if outcome[0] in ("unsat", "conflict"):
+                k = len(snaps) - 1 if outcome[0] == "unsat" else outcome[1]
+                if 0 <= k < len(rows) and z3_sat(rows[:k + 1], integer=False) is True:
+                    report(ctx, "simplex:wrong-unsat", key, "Simplex on %s (encoding %s) reports a conflict after constraint %d although the constraints "
+                           "asserted so far have a rational solution (Z3)" % (rows, key.split("/")[1], k), rp)
+                ctx.count("oracle:z3-lra")
+        # ---- correspondence
+        if out is not None and outcome[0] != "timeout":
+            m = parse_simplex_model(out[idx])
+            if m != (outcome, atoms, init, snaps):
+                ndis += 1
+                if ndis <= 3:
+                    where = "outcome" if m is None or m[0] != outcome else "atoms" if m[1] != atoms else "initial tableau" if m[2] != init else \
+                        "state after check %d" % next((i for i, (a, b) in enumerate(zip(m[3], snaps)) if a != b), min(len(m[3]), len(snaps)))
+                    ctx.broken("correspondence:c16:simplex", "rows=%s enc=%s differ at %s: impl=%s model=%s" % (rows, key.split("/")[1], where, (outcome,), (m[0] if m else None,)))
+                    ctx.coverage["disagreements_checked"] += 1
+    return out is not None
+
+
 def run_bb(simplex, rows, enc):
     s = simplex.Simplex()
     orig = simplex.deque
@@ -1165,15 +1291,20 @@ def run(ctx):
             ctx.log("Gen.lean regenerated (changed)")
     except Exception as e:  # noqa
         ctx.broken("translate:c16:combine_factoid", "untranslatable: %r" % e)
-    proofs_ok = ctx.lean_props(["Holpy.C16.Props"], exes=[EXE])
+    proofs_ok = ctx.lean_props(["Holpy.C16.Props", "Holpy.C16.PropsSimplex"], exes=[EXE])
     if ctx.tier == "thorough" and proofs_ok:
-        ctx.lean_check_modules(["Holpy.C16.Props"])
+        ctx.lean_check_modules(["Holpy.C16.Props", "Holpy.C16.PropsSimplex"])
     ctx.coverage["trusted_base"] += [
         "translator of omega.combine_real_factoid / combine_dark_factoid (Python AST -> Gen.lean, harness/props/c16.py)",
         "correspondence harness (generators, derivation/witness serialisation, rows -> GreaterEq/LessEq encoding, explanation -> Farkas multipliers)",
         "Z3 (LIA/LRA) and the box -6..6 as supporting oracles where no certificate exists; kernel.theory.check_proof for proof terms",
         "exact integer division in the model in place of Python's float division (agree below 2^53); CPython hash(-1)=hash(-2) as the only bucket collision"]
+    ctx.coverage["trusted_base"] += [
+        "simplex model: variables are numbered so that numeric order = Python's string order of the names ($a$.. < x0..); sets/dicts of "
+        "simplex.py are modelled by order-independent folds (update over all rows, greatest violated basic variable)"]
     ctx.assumptions += [
+        "simplex theorems are about the model of Simplex (fixes C16-2 included) under InputOK: each constraint mentions a variable once, "
+        "problem variables numbered above the slack variables; termination of check() is not proved (fuel)",
         "omega_contr_sound / omega_sat_sound are about the model of solve_matrix with fix C16-1, for matrices whose rows have one width; "
         "the model is tied to the code by translation of the two combine functions and by differential runs",
         "the simplex algorithm is not modelled; its answers are judged per run by verified certificate checkers, Z3 and brute force",
@@ -1208,6 +1339,7 @@ def run(ctx):
     rng = ctx.rng("simplex")
     sys2 = [gen_system(rng) for _ in range(ctx.scale(1500, 10000))]
     check_simplex(ctx, simplex, sys2, "random")
+    check_simplex_model(ctx, simplex, sys2, "random")
     ctx.log("simplex stream done (%d)" % len(sys2))
     hh = ctx.coverage["histogram"]
     ctx.coverage["simplex_unsat_certified_by_checkFarkas"] = "%d of %d 'unsatisfiable' answers (the others judged by Z3)" % (
@@ -1280,8 +1412,21 @@ MANIFEST = {
             "input row). The model is tied to prover/omega.py by regenerating combine_real_factoid/combine_dark_factoid from the source "
             "on every run and by "
             "differential runs (verdict, witness dict, derivation tree) on generated systems; besides, every answer of the real code is "
-            "judged at run time: SAT witnesses by the verified checkWitness and an independent evaluation, contradictions by the verified checkDeriv, an independent replay, brute force and Z3. The simplex algorithm (pivoting, branch and bound, strict variant) is not "
-            "modelled: its witnesses go through checkWitness(Q), its 'unsatisfiable' answers are certified by checkFarkas whenever Farkas multipliers "
+            "judged at run time: SAT witnesses by the verified checkWitness and an independent evaluation, contradictions by the verified checkDeriv, an independent replay, brute force and Z3. (c) about an executable model "
+            "of prover/simplex.py's Simplex class (add_ineq, update, pivot, pivotAndUpdate, assert_upper/lower, check with the variable choice as coded, "
+            "handle_assertion; exact rationals), tied to the code by replaying the same assertion sequences and comparing verdict, mapping and "
+            "basic set after every check(): pivot_preserves_rows / pivot_preserves_wf (a pivot keeps the solution set of the row equations and "
+            "the well-formedness of the tableau), update_preserves_rows / pivotAndUpdate_preserves_rows (mapping stays a solution of the rows), "
+            "check_sat_sound (check = SAT: mapping satisfies rows and all bounds), check_unsat_sound (check = UNSAT: rows + bounds have no "
+            "rational solution; the stuck row is the Farkas-style explanation), handle_assertion_sat_sound / handle_assertion_unsat_sound, and "
+            "end to end simplex_sat_sound / simplex_unsat_sound (Simplex(); add_ineqs(qs); handle_assertion(): no exception => mapping satisfies "
+            "every given constraint except the ignored form 0*x ~ b; UNSATException / AssertUpper/LowerException => qs has no rational "
+            "solution), bb_sat_sound_partial (a branch-and-bound node is such a run on a superset of the constraints, so a mapping it returns "
+            "satisfies the original constraints; the search loop is not modelled). All for every fuel: termination of check is NOT proved (the code repairs the last violated basic variable, not "
+            "Bland's rule); the outcome 'fuel' claims nothing. NOT modelled / not proved: branch_and_bound (its verdicts are compared with Z3 "
+            "and brute force, witnesses go through checkWitness), simplex_strict (delta-pairs; Z3 and exact witness evaluation), the "
+            "proof-producing wrappers (checked by theory.check_proof). In addition every answer of the real Simplex is judged per run: "
+            "witnesses go through checkWitness(Q), 'unsatisfiable' answers are certified by checkFarkas whenever Farkas multipliers "
             "can be read from the solver's explanation (internal fields; if not, or if they do not check, the verdict is decided by Z3 - only "
             "a wrong verdict is a violation), branch-and-bound / strict verdicts are compared with Z3 and brute force. OmegaHOL "
             "and SimplexHOLWrapper proof terms are checked by theory.check_proof (conclusion false, no gaps, every hypothesis literally one of the given constraints; "
